@@ -26,8 +26,9 @@ use std::collections::BTreeMap;
 use std::sync::Arc;
 
 use super::c16::{
-    AuthState, BIG_BUF, Built, Cfg, Findings, Fld, Handled, KeyEnv, Kind, Local, MAX_DATAGRAM, MockClock, Out, Req, Sync,
-    alphabet, build, build_with, client_ip, key_env, kind_key, make_server, raw_requests, run_handle, walk,
+    AuthState, BIG_BUF, Built, Cfg, Findings, Fld, Handled, KeyEnv, Kind, Local, MAX_DATAGRAM,
+    MockClock, Out, Req, Sync, alphabet, build, build_with, client_ip, key_env, kind_key,
+    make_server, raw_requests, run_handle, walk,
 };
 use super::common::{self, Ctx};
 use crate::{Server, ServerReason, ServerResponse};
@@ -197,7 +198,11 @@ fn mutations(b: &Built, req: &Req, keys: &KeyEnv) -> Vec<Mutation> {
     if b.auth == AuthState::Valid && b.plain_len > 0 {
         // recover the plaintext through the edit hook
         let captured = std::cell::RefCell::new(Vec::new());
-        let _ = build_with(req, keys, Some(&|p: &mut Vec<u8>| *captured.borrow_mut() = p.clone()));
+        let _ = build_with(
+            req,
+            keys,
+            Some(&|p: &mut Vec<u8>| *captured.borrow_mut() = p.clone()),
+        );
         let plain = captured.into_inner();
         for (o, x) in plain.iter().enumerate() {
             for p in byte_patterns(*x) {
@@ -229,23 +234,33 @@ fn apply(m: &Mutation, b: &Built, req: &Req, keys: &KeyEnv) -> Vec<u8> {
             }
         }
         Mutation::Trunc(n) => bytes.truncate(*n),
-        Mutation::Append(n) => bytes.extend((0..*n).map(|i| (i as u8).wrapping_mul(37).wrapping_add(0x11))),
+        Mutation::Append(n) => {
+            bytes.extend((0..*n).map(|i| (i as u8).wrapping_mul(37).wrapping_add(0x11)))
+        }
         Mutation::Plain(o, x) => {
             let (o, x) = (*o, *x);
-            bytes = build_with(req, keys, Some(&move |p: &mut Vec<u8>| {
-                if o < p.len() {
-                    p[o] = x;
-                }
-            }))
+            bytes = build_with(
+                req,
+                keys,
+                Some(&move |p: &mut Vec<u8>| {
+                    if o < p.len() {
+                        p[o] = x;
+                    }
+                }),
+            )
             .bytes;
         }
         Mutation::PlainLen(o, v) => {
             let (o, v) = (*o, *v);
-            bytes = build_with(req, keys, Some(&move |p: &mut Vec<u8>| {
-                if o + 2 <= p.len() {
-                    p[o..o + 2].copy_from_slice(&v.to_be_bytes());
-                }
-            }))
+            bytes = build_with(
+                req,
+                keys,
+                Some(&move |p: &mut Vec<u8>| {
+                    if o + 2 <= p.len() {
+                        p[o..o + 2].copy_from_slice(&v.to_be_bytes());
+                    }
+                }),
+            )
             .bytes;
         }
     }
@@ -337,11 +352,7 @@ fn envs() -> Vec<Env> {
     for cfg in Cfg::ALL {
         for sync in sync_states() {
             for rotated in [true, false] {
-                v.push(Env {
-                    cfg,
-                    sync,
-                    rotated,
-                });
+                v.push(Env { cfg, sync, rotated });
             }
         }
     }
@@ -380,7 +391,12 @@ fn shoot(
                 findings.report(
                     "C22:panic",
                     datagram.len(),
-                    || format!("Server::handle panicked ({p}) on {} with a {buf_len}-byte buffer", common::hex(datagram)),
+                    || {
+                        format!(
+                            "Server::handle panicked ({p}) on {} with a {buf_len}-byte buffer",
+                            common::hex(datagram)
+                        )
+                    },
                     || trace(bi),
                 );
                 obs.push_str(&format!("b{bi}:panic({p});"));
@@ -426,7 +442,12 @@ fn replay(ctx: &Ctx, trace: &str) -> String {
     if p.len() != 7 {
         return format!("unparseable trace {trace:?}");
     }
-    let (Some(cfg), Some(sync), Some(req), Some(m)) = (Cfg::parse(p[0]), Sync::parse(p[1]), Req::parse(p[4]), Mutation::parse(p[5])) else {
+    let (Some(cfg), Some(sync), Some(req), Some(m)) = (
+        Cfg::parse(p[0]),
+        Sync::parse(p[1]),
+        Req::parse(p[4]),
+        Mutation::parse(p[5]),
+    ) else {
         return format!("unparseable trace {trace:?}");
     };
     let mut keys = key_env(p[2] == "k1");
@@ -437,7 +458,14 @@ fn replay(ctx: &Ctx, trace: &str) -> String {
     let mut server = make_server(cfg, &sync, &keys.server);
     let findings = Findings::new();
     let t = trace.to_string();
-    let obs = shoot(&findings, &mut None, &mut server, ip_kind, &datagram, &|_| t.clone());
+    let obs = shoot(
+        &findings,
+        &mut None,
+        &mut server,
+        ip_kind,
+        &datagram,
+        &|_| t.clone(),
+    );
     findings.flush(ctx);
     format!("{} bytes: {obs}", datagram.len())
 }
@@ -494,20 +522,40 @@ fn check() {
                     let datagram = apply(m, &b, req, keys);
                     let mut past_parsing = false;
                     // environments with this key set
-                    let env_ids: Vec<usize> = (0..environments.len()).filter(|i| environments[*i].rotated as usize == ki).collect();
+                    let env_ids: Vec<usize> = (0..environments.len())
+                        .filter(|i| environments[*i].rotated as usize == ki)
+                        .collect();
                     let chosen: Vec<usize> = if full_product || mi == 0 {
                         env_ids.clone()
                     } else {
                         // round-robin: 6 environments per mutant, covering all 24 every 4 mutants
-                        (0..6).map(|j| env_ids[(mi * 6 + j) % env_ids.len()]).collect()
+                        (0..6)
+                            .map(|j| env_ids[(mi * 6 + j) % env_ids.len()])
+                            .collect()
                     };
                     for ei in chosen {
                         let e = &environments[ei];
                         let ip_kind = (2 * mi + ei) % 3;
                         let trace = |bi2: usize| {
-                            format!("{};{};k{};ip{};{};{};b{}", e.cfg.code(), e.sync.code(), ki, ip_kind, req.code(), m.code(), bi2)
+                            format!(
+                                "{};{};k{};ip{};{};{};b{}",
+                                e.cfg.code(),
+                                e.sync.code(),
+                                ki,
+                                ip_kind,
+                                req.code(),
+                                m.code(),
+                                bi2
+                            )
                         };
-                        let obs = shoot(&findings, &mut Some(&mut *loc), &mut servers[ei], ip_kind, &datagram, &trace);
+                        let obs = shoot(
+                            &findings,
+                            &mut Some(&mut *loc),
+                            &mut servers[ei],
+                            ip_kind,
+                            &datagram,
+                            &trace,
+                        );
                         if obs.contains("b:") {
                             past_parsing = true;
                         }
@@ -525,16 +573,29 @@ fn check() {
         let mut server = make_server(Cfg::Open, &Sync::TYPICAL, &keys.server);
         for (code, m) in [
             ("v4.m3.p6.l0.g0.a0|u32,cC0,Aok()|m0", Mutation::None),
-            ("v4.m3.p6.l0.g0.a0|u32,cC0,Aok()|m0", Mutation::Len(50, 0xFFFF)),
-            ("v4.m3.p6.l0.g0.a0|u32,cC0,p0,Aok(p0)|m0", Mutation::PlainLen(2, 0x0003)),
-            ("v5.m3.p6.l0.g0.a0|u32,r512@0,z16,d1|m0", Mutation::Wire(86, 0xFF)),
+            (
+                "v4.m3.p6.l0.g0.a0|u32,cC0,Aok()|m0",
+                Mutation::Len(50, 0xFFFF),
+            ),
+            (
+                "v4.m3.p6.l0.g0.a0|u32,cC0,p0,Aok(p0)|m0",
+                Mutation::PlainLen(2, 0x0003),
+            ),
+            (
+                "v5.m3.p6.l0.g0.a0|u32,r512@0,z16,d1|m0",
+                Mutation::Wire(86, 0xFF),
+            ),
             ("v4.m3.p6.l0.g0.a0||m0", Mutation::Append(25)),
         ] {
             let r = Req::parse(code).unwrap();
             let b = build(&r, &keys);
             let d = apply(&m, &b, &r, &keys);
             let f = Findings::new();
-            ctx.sample(format!("{code} {} -> {}", m.code(), shoot(&f, &mut None, &mut server, 0, &d, &|_| String::new())));
+            ctx.sample(format!(
+                "{code} {} -> {}",
+                m.code(),
+                shoot(&f, &mut None, &mut server, 0, &d, &|_| String::new())
+            ));
         }
     }
     findings.flush(&ctx);
